@@ -163,7 +163,8 @@ def Charset.show : Charset → String
 
 /-- the decode-side CHARACTER_SET hint.  `iana` tells what `ianaindex.IANA.Encoding(name)` does for a
     name the registry does not know: 0 = error (unknown name), 1 = a supported encoding,
-    2 = `(nil, nil)` (name registered at IANA but not supported by x/text) -/
+    2 = `(nil, nil)` (name registered at IANA but not supported by x/text; an error since the
+    repair of the nil-encoding crash) -/
 inductive Hint where
   | none
   | object (id : String)
@@ -252,21 +253,21 @@ def guessDecide (bytes : List Nat) (g : GuessSt) : Charset :=
   else if canS then .sjis
   else .utf8            -- `canBeUTF8`, or the platform default, which is UTF-8 too
 
-/-- `StringUtils_guessCharset(bytes, hints)`; an `Encoding(name)` failure is a plain error that the
-    caller wraps into FormatException; `none` models the nil encoding returned for IANA names that
-    x/text does not implement. -/
-def guessCharset (reg : Registry) (bytes : List Nat) (hint : Hint) : Res (Option Charset) :=
+/-- `StringUtils_guessCharset(bytes, hints)`; an `Encoding(name)` failure (unknown name, or a name
+    whose encoding x/text does not implement) is a plain error that the caller wraps into
+    FormatException. -/
+def guessCharset (reg : Registry) (bytes : List Nat) (hint : Hint) : Res Charset :=
   match hint with
-  | .object id => .ok (some (.object id))
+  | .object id => .ok (.object id)
   | .name n iana =>
     match byName reg n with
-    | some e => .ok (some (.named e.name))
-    | none => if iana = 0 then .error .format else if iana = 1 then .ok (some (.ianaName n)) else .ok none
+    | some e => .ok (.named e.name)
+    | none => if iana = 1 then .ok (.ianaName n) else .error .format
   | .none =>
     match bytes with
-    | 0xFE :: 0xFF :: _ :: _ => .ok (some (.utf16 true))
-    | 0xFF :: 0xFE :: _ :: _ => .ok (some (.utf16 false))
-    | _ => .ok (some (guessDecide bytes (bytes.foldl guessStep {})))
+    | 0xFE :: 0xFF :: _ :: _ => .ok (.utf16 true)
+    | 0xFF :: 0xFE :: _ :: _ => .ok (.utf16 false)
+    | _ => .ok (guessDecide bytes (bytes.foldl guessStep {}))
 
 /-! ## encoder side (qrcode/encoder/encoder.go) -/
 
